@@ -4,6 +4,7 @@ From TV Require Import Base.Prelude Base.Utf8 Base.Winnow Model.Tree Model.Parse
 From TV Require Import Proofs.GrammarBase.
 From TV Require Import Proofs.SpansDefs Proofs.SpansDoc Proofs.SpansDespan Proofs.SpansExact Proofs.SpansReparse.
 From TV Require Import Proofs.SpansNestValue Proofs.SpansNestDoc.
+From TV Require Import Proofs.SpansBoundary Proofs.SpansBdDoc.
 
 (* 1. every span stored anywhere in a successfully parsed document (key reprs, key decor, value reprs and
       decor, array / inline-table trailing, table spans, array-of-tables spans, document trailing:
@@ -103,6 +104,27 @@ Theorem C14_dotted_table_inside_parent_refuted :
   exists s d, parse_document s = POk d /\ dotted_inside (doc_root d) = false /\ tnest (doc_root d) = true.
 Proof. exact dotted_inside_refuted. Qed.
 Print Assumptions C14_dotted_table_inside_parent_refuted.
+
+(* 4. character boundaries: for a well-formed UTF-8 source, every span endpoint stored anywhere in the parsed
+      document is a character boundary of the source (token boundaries are ASCII delimiters or ends of
+      UTF-8-checked chunks: every parser consumes whole characters, Proofs/SpansUtf8Lex.v) *)
+Theorem C14_char_boundaries : forall s d,
+  utf8_valid_b s = true -> parse_document s = POk d ->
+  Forall (fun sp => char_boundary_b s (fst sp) = true /\ char_boundary_b s (snd sp) = true) (all_spans d).
+Proof. exact spans_on_char_boundaries. Qed.
+Print Assumptions C14_char_boundaries.
+
+(*    ... and at the level of one token (`at_ s i`: the cursor points into s, what remains is well-formed) *)
+Theorem C14_value_span_boundaries : forall s i v i',
+  at_ s i -> value_ i = Ok v i' ->
+  value_span v = Some (pos i, pos i') /\ char_boundary_b s (pos i) = true /\ char_boundary_b s (pos i') = true.
+Proof. exact value_span_boundaries. Qed.
+Print Assumptions C14_value_span_boundaries.
+Theorem C14_key_span_boundaries : forall s i r k i',
+  at_ s i -> simple_key i = Ok (r, k) i' ->
+  r = RSpanned (pos i) (pos i') /\ char_boundary_b s (pos i) = true /\ char_boundary_b s (pos i') = true.
+Proof. exact key_span_boundaries. Qed.
+Print Assumptions C14_key_span_boundaries.
 
 (* ---- examples: the hypotheses are satisfiable, the statements say something --------------------------------------- *)
 (* "'é' = 'ü' # ö\n[t]\na.b = { x.y = 1, x.z = [ 2 ] }\n[[t.u]]\nk = 1\n[[t.u]]\n" (multi-byte characters, a dotted key, an
